@@ -48,18 +48,20 @@ type v09Step struct {
 	St   string `json:"st,omitempty"`
 	Ts   int64  `json:"ts,omitempty"`
 	// query
-	Sid    string   `json:"sid,omitempty"` // one signing act; a repeated sid re-submits the same snapshot
-	T      int64    `json:"t,omitempty"`
-	Chain  string   `json:"chain,omitempty"`
-	Round  uint64   `json:"round,omitempty"`
-	Ver    string   `json:"ver,omitempty"`
-	Msg    string   `json:"msg,omitempty"`
-	Tamper string   `json:"tamper,omitempty"`
-	Mask   []int    `json:"mask"`            // explicit bit positions (TLC-generated cases) ...
-	By     []string `json:"by"`              // ... and signing members
-	MaskV  string   `json:"maskv,omitempty"` // or variants relative to the view at signing time
-	SigV   string   `json:"sigv,omitempty"`
-	Tag    string   `json:"tag,omitempty"`
+	Sid     string   `json:"sid,omitempty"` // one signing act; a repeated sid re-submits the same snapshot
+	T       int64    `json:"t,omitempty"`
+	Chain   string   `json:"chain,omitempty"`
+	Round   uint64   `json:"round,omitempty"`
+	Ver     string   `json:"ver,omitempty"`
+	Msg     string   `json:"msg,omitempty"`
+	Tamper  string   `json:"tamper,omitempty"`
+	Mask    []int    `json:"mask"`            // explicit bit positions (TLC-generated cases) ...
+	By      []string `json:"by"`              // ... and signing members
+	AltMask []int    `json:"altmask"`         // submit the signature bytes of sid under this other mask ...
+	AltV    string   `json:"altv,omitempty"`  // ... or "swap": one signer bit swapped for a non-signer bit
+	MaskV   string   `json:"maskv,omitempty"` // or variants relative to the view at signing time
+	SigV    string   `json:"sigv,omitempty"`
+	Tag     string   `json:"tag,omitempty"`
 }
 
 type v09WorldCase struct {
@@ -499,6 +501,39 @@ func (w *v09World) shape(st *v09Step, keys []crypto.Hash, thr int) ([]int, []*v0
 	return mask, by, msg, tamper, ver
 }
 
+// one in-range signer bit swapped for a non-signer bit (equal popcount)
+func v09SwapBit(mask []int, n int) []int {
+	in := map[int]bool{}
+	drop := -1
+	for _, i := range mask {
+		in[i] = true
+		if i < n && i > drop {
+			drop = i
+		}
+	}
+	if drop < 0 {
+		return append([]int{}, mask...)
+	}
+	add := n
+	for i := 0; i < n; i++ {
+		if !in[i] {
+			add = i
+			break
+		}
+	}
+	if add > 63 {
+		return append([]int{}, mask...)
+	}
+	out := []int{add}
+	for _, i := range mask {
+		if i != drop {
+			out = append(out, i)
+		}
+	}
+	sort.Ints(out)
+	return out
+}
+
 func (w *v09World) query(st *v09Step) vM {
 	ts := w.real(st.T)
 	var chainId crypto.Hash
@@ -574,13 +609,31 @@ func (w *v09World) query(st *v09Step) vM {
 		w.signed[st.Sid] = sg
 	}
 	ev["reused"] = reused
-	ev["mask"], ev["by"], ev["msg"], ev["tamper"], ev["ver"] = sg.mask, sg.by, sg.msg, sg.tamper, sg.ver
+	// the submitted snapshot: the signing act's own mask, or the same hash and signature bytes
+	// under an altered mask of equal popcount
+	submitted, subMask := sg.snap, sg.mask
+	if st.AltMask != nil || st.AltV != "" {
+		alt := st.AltMask
+		if alt == nil {
+			alt = v09SwapBit(sg.mask, len(keyIds))
+		}
+		cp := *sg.snap
+		var bits uint64
+		for _, i := range alt {
+			bits |= uint64(1) << uint(i)
+		}
+		cp.Signature = &crypto.CosiSignature{Signature: sg.snap.Signature.Signature, Mask: bits}
+		submitted, subMask = &cp, alt
+		ev["alt"] = true
+		ev["sigmask"] = sg.mask
+	}
+	ev["mask"], ev["by"], ev["msg"], ev["tamper"], ev["ver"] = subMask, sg.by, sg.msg, sg.tamper, sg.ver
 
 	verify := func() (string, []int) {
 		var signers []crypto.Hash
 		var final bool
 		r, _ := vCall(func() error {
-			signers, final = chain.verifyFinalization(sg.snap)
+			signers, final = chain.verifyFinalization(submitted)
 			return nil
 		})
 		if r != "ok" {
